@@ -11,9 +11,9 @@ open CC
 open CC.Spec.Seq (SOp Out)
 
 /-- any push/pop/peek/size call that reports an error returns the stack it was given -/
-theorem error_is_inert (s : Stack) (op : SOp) (m : Mem) (hinv : s.Inv) (hlive : 0 < m.live) (st : Stat)
+theorem error_is_inert (s : Stack) (op : SOp) (m : Mem) (hinv : s.Inv) (st : Stat)
     (h1 : (s.step op m).1.st = some st) (h2 : st ≠ .ok) : (s.step op m).2.1 = s :=
-  Stack.ext_v ((C09Stack.step_refines s op m hinv hlive).2.2.2.2.2.2 st h1 h2)
+  Stack.ext_v ((C09Stack.step_refines s op m hinv).2.2.2.2.2.2 st h1 h2)
 
 /-- pop and peek succeed exactly on non-empty stacks; on the empty stack: error, nothing changed -/
 theorem empty_rejected (s : Stack) (m : Mem) (hinv : s.Inv) :
